@@ -694,7 +694,10 @@ for alts, guard, val in reversed(ca_arms):
     e = "if %s then %s else %s" % (c, val, e)
 L.append("Definition g_crash_address (c : gcpu) (o : gosx) (code nparams : Z) (info : Z -> Z) (excaddr : Z) : Z :=")
 L.append("  let a := %s in" % e)
-L.append("  match pointer_width c with " + " | ".join("W%s => %s" % (w, trunc(x)) for w, x in pw_arms) + " | _ => %s end." % trunc(pw_default))
+if len({w for w, _ in pw_arms}) != len(pw_arms):
+    die("get_crash_address: duplicate PointerWidth arm")
+L.append("  match pointer_width c with " + " | ".join("W%s => %s" % (w, trunc(x)) for w, x in pw_arms) +
+         (" | _ => %s end." % trunc(pw_default) if len(pw_arms) < 3 else " end."))
 out = "\n".join(L) + "\n"
 os.makedirs(outdir, exist_ok=True)
 pth = os.path.join(outdir, "C19Src.v")
